@@ -124,6 +124,27 @@ CHECKS = {
               "the rewards' is covered only through the sentinel rule."),
         note=TRUST + "; ties may resolve either way",
         ref="DESIGN.md section 4-C07"),
+    "C09": dict(
+        engine="E3 + E2 cfg + routing",
+        technique="sympy equivalence of the schedule formulas + CFG guard analysis of the phase machine + routing agreement pull/receive_reward",
+        text=("Static necessary conditions: N, D_max, phase length and the rho grid equal the published formulas; learners are created "
+              "only at counter == 0 while phases remain, with (nu_max, rho_i) and the caller's arguments; pull and receive_reward route "
+              "by the same guards to the same learner and pull writes no schedule state; the counter advances once per unfinished "
+              "round after the credit and the phase rolls over exactly at 2*floor(n/2N); validation slots, running-mean score with "
+              "count counter-half, final arg-max; PCT/VPCT pure forwards. The schedule as a concrete time series is NOT enumerated."),
+        note=TRUST + "; positive parameters; pull/receive_reward alternate",
+        ref="DESIGN.md section 4-C09"),
+    "C10": dict(
+        engine="routing + E3 + E2 cfg",
+        technique="routing agreement analysis + append-only/index/running-mean shape checks + sympy formula equivalence",
+        text=("Static necessary conditions: one learner per path in pull and in receive_reward, identical designators on consistent "
+              "paths, no schedule state written by pull; learners only appended (with score 0 / count 0, under counter == 0) and built "
+              "with nu_max, the rho grid and the caller's arguments; score and count updated at the rewarded learner's own index; "
+              "creation-stage score is a running mean over the per-learner counter, round-robin weight is ceil(n/N) of the current n, "
+              "N; recommendation = V_algo[argmax V_reward].pull without writing POO state. NOT decided: ceil(n/N) == reward count "
+              "(schedule invariant over histories), numeric distinctness of rho values."),
+        note=TRUST + "; rhomax >= 0.84 (smaller: C01 known finding); pull/receive_reward alternate",
+        ref="DESIGN.md section 4-C10"),
 }
 
 NOT_YET = "checker under construction in this round (see DESIGN.md section 0 for the clause it will decide)"
